@@ -172,7 +172,8 @@ def make_d(did, lines_fn, expect, text):
 
 
 def _later_org(ctx, out, first_code=True):
-    """reject, or: image loaded at the reported origin places every statement at its listing address"""
+    """reject, or: image loaded at the reported origin places every statement's bytes at its listing address (the image
+    may hold filler between the segments, never anything in front of the first byte or behind the last)"""
     if out.kind != "ok":
         return True
     p = out.program
@@ -180,16 +181,22 @@ def _later_org(ctx, out, first_code=True):
     if p.origin.is_none():
         return False
     base = p.origin.int
-    pos = 0
     from vlib.harness import stmt_bytes
+    end = 0
+    first = None
     for st in p.statements:
         b = stmt_bytes(st)
         if len(b) == 0:
             continue
-        if st.code_pkg.address.int != base + pos:
+        at = st.code_pkg.address.int - base
+        if first is None:
+            first = at
+        if at < end or at + len(b) > len(img):
+            return False                          # overlaps the previous statement / lies outside the image
+        if img[at:at + len(b)] != b:
             return False
-        pos = pos + len(b)
-    return True
+        end = at + len(b)
+    return first == 0 and end == len(img)
 
 
 def random_templates(seed, count):
@@ -283,13 +290,26 @@ def obligations(tier, seed):
         return inner
     obs.append(make_inc("include-twice", include_twice_lines, include_twice_ok, "a label-free file included twice: layout and image"))
 
-    def later_org(ctx):
+    full = tier == "thorough"
+    for g in ([0, 1, 2, 7, 200] if not full else [0, 1, 2, 3, 7, 8, 255, 256, 2000]):
+        def later_org_g(ctx, g=g):
+            t1, o1 = ctx.lit("H4", "o1")
+            ctx.assume(o1 <= 60000)
+            ctx.assume(o1 >= 4096)
+            # the second origin is written relative to the first through an EQU-free literal: o1 + 3 + g
+            t2, o2 = ctx.lit("H4", "o2")
+            ctx.assume(o2 == o1 + 3 + g)
+            return [" ORG %s" % t1, "A NOP", " LDA #1", " ORG %s" % t2, "B NOP", " RTS"]
+        obs.append(make_d("later-org:+%d" % g, later_org_g, lambda ctx, out: out.kind == "ok" and _later_org(ctx, out),
+                          "ORG o1 / NOP / LDA #1 / ORG o1+3+%d / NOP / RTS: accepted, every byte at its listing address" % g))
+
+    def later_org_back(ctx):
         t1, o1 = ctx.lit("H4", "o1")
         t2, o2 = ctx.lit("H4", "o2")
         ctx.assume(o1 <= 60000)
-        ctx.assume(o2 <= 60000)
+        ctx.assume(o2 < o1 + 3)
         return [" ORG %s" % t1, "A NOP", " LDA #1", " ORG %s" % t2, "B NOP", " RTS"]
-    obs.append(make_d("later-org", later_org, _later_org, "ORG o1 / NOP / LDA #1 / ORG o2 / NOP / RTS"))
+    obs.append(make_d("later-org:back", later_org_back, _later_org, "ORG o1 / NOP / LDA #1 / ORG o2 < o1+3 / NOP / RTS: rejected (or laid out)"))
 
     def double_org(ctx):
         t1, o1 = ctx.lit("H4", "o1")
@@ -326,11 +346,11 @@ def obligations(tier, seed):
         else:
             obs.append(directive_case(text, cls))
 
-    def code_before_org(ctx):
-        t2, o2 = ctx.lit("H4", "o2")
-        ctx.assume(o2 <= 60000)
-        return ["A NOP", " LDA #1", " ORG %s" % t2, "B NOP", " RTS"]
-    obs.append(make_d("code-before-org", code_before_org, _later_org, "NOP / LDA #1 / ORG o2 / NOP / RTS"))
+    for o2v in ([3, 4, 40] if not full else [3, 4, 5, 40, 256, 3000]):
+        obs.append(make_d("code-before-org:%d" % o2v, (lambda o2v: (lambda ctx: ["A NOP", " LDA #1", " ORG $%04X" % o2v, "B NOP", " RTS"]))(o2v),
+                          lambda ctx, out: out.kind == "ok" and _later_org(ctx, out), "NOP / LDA #1 / ORG %d / NOP / RTS" % o2v))
+    obs.append(make_d("code-before-org:back", lambda ctx: ["A NOP", " LDA #1", " ORG $0002", "B NOP", " RTS"], _later_org,
+                      "NOP / LDA #1 / ORG 2 / NOP / RTS: rejected (or laid out)"))
     return obs
 
 
